@@ -131,6 +131,26 @@ class Cube(Obj):
             for (i, j), v in zip(cells, news):
                 self.data[i][j][idx[1]] = v
             return
+        if isinstance(idx, tuple) and len(idx) in (2, 3) and all(isinstance(x, (Vec, list)) for x in idx[:2]):
+            # integer-array pairs (i, j): the whole cell (or one slot of it) of each pair
+            ri = idx[0].vals if isinstance(idx[0], Vec) else idx[0]
+            ci = idx[1].vals if isinstance(idx[1], Vec) else idx[1]
+            if len(ri) != len(ci):
+                raise AbsRaise("IndexError", stmt)
+            for i, j in zip(ri, ci):
+                if not (isinstance(i, int) and isinstance(j, int) and 0 <= i < self.n and 0 <= j < self.m):
+                    raise IndexOut((i, j), self.n, stmt)
+            slots = [idx[2]] if len(idx) == 3 else [0, 1, 2]
+            if not all(isinstance(k, int) and not isinstance(k, bool) and -3 <= k < 3 for k in slots):
+                raise Unsupported(f"store into a cube with index {idx!r}", stmt)
+            if isinstance(value, (Vec, Mat, list)):
+                raise Unsupported("array stored through integer-array pairs of a cube", stmt)
+            news = [[value if op == "=" else _arith(AUG_BINOP[op], self.data[i][j][k], value, stmt) for k in slots]
+                    for i, j in zip(ri, ci)]
+            for (i, j), vs in zip(zip(ri, ci), news):
+                for k, v in zip(slots, vs):
+                    self.data[i][j][k] = v
+            return
         raise Unsupported(f"store into a cube with index {idx!r}", stmt)
 
 
